@@ -45,7 +45,7 @@ def designs(tier, rnd):
         for k0, k1 in itertools.product(mids, mids):
             for shared in (True, False):
                 for topleaf in (None, "ext", "prim"):
-                    for adv in (None, "m0:n", "m0:x:n", "m1:m2", "n"):
+                    for adv in (None, "m0:n", "m0:x:n", "m1:m2", "n", "port:m0:n", "port:m0:x:n", "m0:x:l", "late:m0:x:l", "late:m1:x:l2", "inst:m0:x:l", "inst:m1:y:l2"):
                         mods = {"Leafm": leafmod(lk), "M0": mids[k0](), "M1": mids[k0]() if shared else mids[k1]()}
                         if shared:
                             mods.pop("M1")
@@ -56,11 +56,25 @@ def designs(tier, rnd):
                             insts.append(U.inst("tl", "L12", [("a", Sig("g")), ("b", Sig("hh"))], k="ext"))
                         elif topleaf == "prim":
                             insts.append(U.inst("tl", "Mos", [("d", Sig("g")), ("g", Sig("io")), ("s", Sig("g")), ("b", Sig("io"))], k="ext"))
-                        if adv:
-                            # a designer signal at the top named like a ':'-joined name flatten generates for an internal net
-                            w = 2 if adv.endswith("m2") else 1
-                            top_sigs.append(U.sig(adv, w))
-                            insts.append(U.inst("advl", "L1" if w == 1 else "L12", [("a", Sig(adv))] if w == 1 else [("a", Sig("g")), ("b", Sig(adv))], k="ext"))
+                        m1kind = k0 if shared else k1
+                        if adv == "inst:m1:y:l2" and m1kind == "thru":
+                            continue        # no such nested leaf: the name would not collide, and could not be told from a path
+                        if adv and adv.startswith("inst:"):
+                            # a top-level leaf instance named like the ':'-joined path of a nested leaf
+                            insts.append(U.inst(adv[5:], "L1", [("a", Sig("g"))], k="ext"))
+                        elif adv:
+                            # a designer signal (or port) at the top named like a ':'-joined name flatten generates for an internal net or a leaf;
+                            # "late:" - first used by an instance that comes after the hierarchy in walk order
+                            isport = adv.startswith("port:")
+                            late = adv.startswith("late:")
+                            nm = adv.split(":", 1)[1] if (isport or late) else adv
+                            w = 2 if nm.endswith("m2") else 1
+                            top_sigs.append(U.sig(nm, w, isport))
+                            user = U.inst("advl", "L1" if w == 1 else "L12", [("a", Sig(nm))] if w == 1 else [("a", Sig("g")), ("b", Sig(nm))], k="ext")
+                            if late:
+                                insts.append(user)
+                            else:
+                                insts.insert(0, user)
                         mods["Top"] = U.mod(top_sigs, insts, probes=False)
                         D = U.design(mods)
                         D["leaves"] = leaves
